@@ -131,6 +131,24 @@ impl FileDesc {
             ));
         }
 
+        if oti.fec_encoding_id == oti::FECEncodingID::ReedSolomonGF28UnderSpecified
+            && object.transfer_length > 0
+        {
+            // GF(2^8) cannot encode a block of more than 256 encoding symbols (source + parity)
+            let (a_large, _, _, _) = partition::block_partitioning(
+                oti.maximum_source_block_length as u64,
+                object.transfer_length,
+                oti.encoding_symbol_length as u64,
+            );
+            let encoding_block_length = a_large + oti.max_number_of_parity_symbols as u64;
+            if encoding_block_length > 256 {
+                return Err(FluteError::new(format!(
+                    "Object transfer length of {} leads to blocks of {} encoding symbols, FEC Reed Solomon GF(2^8) supports 256 at most",
+                    object.transfer_length, encoding_block_length
+                )));
+            }
+        }
+
         if oti.fec_encoding_id == oti::FECEncodingID::Raptor {
             let (a_large, a_small, nb_a_large, nb_blocks) = partition::block_partitioning(
                 oti.maximum_source_block_length as u64,
